@@ -50,7 +50,7 @@ def run(chk, args):
         chk.seed = int(replay.get("seed", chk.seed))
         chk.tier = replay.get("tier", chk.tier)
     thorough = chk.tier == "thorough"
-    permut, schemas_per, qmod, pmod = (6, 4, 11, 3) if thorough else (2, 3, 31, 7)
+    permut, schemas_per, qmod, pmod = (10, 5, 7, 2) if thorough else (2, 3, 31, 7)
     binp = vlib.go_build("c11")
     wd = vlib.scratch("c11_")
     out = os.path.join(wd, "cases.json")
